@@ -13,7 +13,7 @@ from . import c10
 
 ID = 'C18'
 LEVEL = 'model_checking'
-RULE = ('(e) stack headroom: every corpus program compiled under every recursion limit from 3 below to 45 above the least limit under which it compiles at all (found by bisection): each compilation raises or returns exactly the ordinary output. corpus: every clause shape with 0..3 variables that occur only inside head structures x 0..4 body-only variables '
+RULE = ('(f) capacity: in a fresh process a filler with exactly n distinct variable names (n from 1 below to 1 above each of 11 typical capacities 64..8192 [quick ..4096], sharing none / the first / the first two .. of the target\'s names), then each of 4 targets: the same text as in a fresh process; (e) stack headroom: every corpus program compiled under every recursion limit from 3 below to 45 above the least limit under which it compiles at all (found by bisection): each compilation raises or returns exactly the ordinary output. corpus: every clause shape with 0..3 variables that occur only inside head structures x 0..4 body-only variables '
         'x 0..2 anonymous variables, heads in which 2..5 variables occur twice, the body trees with <= N operators in the C05 context, the repository\'s sample files, [for (b) and (d) also the body trees with N+1 operators over {! o fail}], and 11 programs that are rejected at different stages (syntax, leftover input, goal not callable, head name, too large, unsupported term - also in the middle of a clause whose variables have the names other programs use). '
         '(a) environment exploration of set-iteration order: the names set/frozenset are shadowed in the compiler modules by '
         'an order-controlled stand-in; every call is a choice point and EVERY permutation of its elements is explored at '
@@ -536,16 +536,70 @@ def run_headroom(spec):
     return acc
 
 
+# ---- (f) how MUCH was compiled before ------------------------------------------------------------------
+# Whatever a compiler remembers between compilations has some capacity.  In a fresh process (forked from a
+# never-compiled zygote) a filler program with exactly n distinct variable names is compiled, then a target;
+# n runs through every value from 1 below to 1 above each typical capacity (64 .. 8192), and the filler
+# shares none, the first, the first two ... of the target's variable names.  The target compiles to what it
+# compiles to in a fresh process.
+CAPACITIES = [64, 100, 128, 256, 500, 512, 1000, 1024, 2048, 4096, 8192]
+CAP_TARGETS = [('same', 'same(X, Y, X) :- known(Y).\n', ['X', 'Y']), ('repeat', 'p(A, B, A, B) :- q(B, A), r(Cc).\n', ['A', 'B', 'Cc']),
+               ('nested', 'p(X, f(X, Y), [Y|T]) :- q(T, _, _).\n', ['X', 'Y', 'T']), ('ite', 'p(X, Y) :- ( q(X) -> r(Y, Z) ; s(Z) ), \\+ t(X, Z).\n', ['X', 'Y', 'Z'])]
+
+
+def filler(n, shared):
+    names = list(shared) + ['G%d' % i for i in range(n - len(shared))]
+    lines = []
+    for i in range(0, len(names), 40):
+        lines.append('fill(%s).' % ', '.join(names[i:i + 40]))
+    return '\n'.join(lines) + '\n'
+
+
+def capacity_jobs(tier):
+    caps = [c for c in CAPACITIES if tier != 'quick' or c <= 4096]
+    idx = 0
+    for cap in caps:
+        for d in (-1, 0, 1):
+            for tname, ttext, tvars in CAP_TARGETS:
+                for k in range(len(tvars) + 1):
+                    yield idx, (cap + d, tname, k)
+                    idx += 1
+
+
+def run_capacity(spec):
+    _, tier, k, n = spec
+    acc = Acc()
+    targets = {t[0]: t for t in CAP_TARGETS}
+    mine = [(i, j) for i, j in capacity_jobs(tier) if i % n == k]
+    base = dict(zip(targets, zygote([[(targets[t][1], None)] for t in targets], ways=1)))
+    jobs = [[(filler(nn, targets[tn][2][:kk]), None), (targets[tn][1], None)] for _, (nn, tn, kk) in mine]
+    res = zygote(jobs, ways=2) if jobs else []
+    for (i, (nn, tn, kk)), d in zip(mine, res):
+        acc.n['evaluations'] += 1
+        acc.n['validated'] += 1
+        acc.n['transitions'] += 2
+        acc.n['nontrivial'] += 1
+        if d != base[tn]:
+            acc.violation('output-depends-on-how-much-was-compiled-before', (6, i), {'capacity': [nn, tn, kk], 'tier': tier},
+                          'in a fresh process a program with exactly %d distinct variable names (among them the first %d of the target\'s: %s) is compiled, then\n%s\nwhich gives another text (digest %s) than as the first compilation of a fresh process (digest %s)'
+                          % (nn, kk, targets[tn][2][:kk], targets[tn][1], d, base[tn]), key='capacity|%d|%s|%d' % (nn, tn, kk))
+        else:
+            acc.outcome(('capacity', tn))
+    return acc
+
+
 NSH = 16
 
 
 def plan(tier):
     seeds = range(6 if tier == 'quick' else 16)
     # the longest shards first
-    return [('sweep', tier, o) for o in SWEEPS] + [('hist', tier, k, NSH) for k in range(NSH)] + [('seed', tier, s) for s in seeds] + [('env', tier, e) for e in ENVIRONMENTS] + [('set', tier, k, NSH) for k in range(NSH)] + [('headroom', tier, k, NSH) for k in range(NSH)]
+    return [('sweep', tier, o) for o in SWEEPS] + [('hist', tier, k, NSH) for k in range(NSH)] + [('seed', tier, s) for s in seeds] + [('env', tier, e) for e in ENVIRONMENTS] + [('set', tier, k, NSH) for k in range(NSH)] + [('headroom', tier, k, NSH) for k in range(NSH)] + [('capacity', tier, k, 8) for k in range(8)]
 
 
 def run_shard(spec):
+    if spec[0] == 'capacity':
+        return run_capacity(spec)
     if spec[0] == 'headroom':
         # in a child: compilations that die half-way must not leave anything in this worker
         from ..runner import in_child
@@ -665,6 +719,11 @@ def run_fresh(text, opts=None):
 
 def replay(case):
     acc = Acc()
+    if 'capacity' in case:
+        nn, tn, kk = case['capacity']
+        t = {x[0]: x for x in CAP_TARGETS}[tn]
+        a, b = zygote([[(t[1], None)], [(filler(nn, t[2][:kk]), None), (t[1], None)]], ways=1)
+        return [] if a == b else [('output-depends-on-how-much-was-compiled-before', 'digest %s after the filler, %s fresh' % (b, a))]
     if 'headroom' in case:
         headroom_program(acc, 0, case['headroom'][0], case['headroom'][1])
         return [(sig, g['detail']) for sig, g in acc.groups.items()]
